@@ -1,1 +1,172 @@
-From Verif Require Import Base.Prim Base.PrimFacts Cbor.Codec Cbor.CodecFacts gen.GenSign gen.GenSpec Cmd.Sign.
+(* C09 — signing policy: already-signed action, key match, recursive configuration.
+   Only statements, each closed by `exact` of a lemma proved in Cmd/Sign.v about the model REGENERATED from /repo/ncs/sign_script.py
+   (Signer.already_signed_action, sign_envelope), /repo/ncs/basic_kms.py (SuitKMS._verify_signing_key_type, sign) and
+   /repo/suit_generator/cmd_sign.py (RecursiveSigner.__init__ / _load_dependency / recursive_sign, main) in gen/GenSign.v, plus
+   non-vacuity examples.  Specification side: Cmd/SignModel.v.  Key store and signature primitives are universally quantified; the
+   sign script that recursive signing calls is an arbitrary function `sc` wherever the statement does not depend on what it does. *)
+Require Import Coq.Strings.String.
+From Verif Require Import Base.Prim Base.PrimFacts Base.Str Cbor.Codec Cbor.CodecFacts Suit.Py Cmd.SignPrim gen.GenSign gen.GenSpec Cmd.Sign.
+
+(* ---------------------------------------------------------------- the input already bears a signature *)
+(* 'error' refuses: sign_envelope raises SignerError, and so does the command — whose only write (save_envelope) comes after *)
+Theorem error_refuses keystore ecdsa eddsa eddsa_ph ent infile t kvs w old a0 kn kid alg ctx :
+  load_envelope infile = Ok (CTag t (CMap kvs)) -> signed_input kvs w old a0 ->
+  sign_envelope keystore ecdsa eddsa eddsa_ph ent (CTag t (CMap kvs)) kn kid alg ctx act_error = Raise SignerError
+  /\ cli_sign_single keystore ecdsa eddsa eddsa_ph ent infile kn kid alg ctx act_error = Raise SignerError.
+Proof. exact (c09_error_refuses keystore ecdsa eddsa eddsa_ph ent infile t kvs w old a0 kn kid alg ctx). Qed.
+Print Assumptions error_refuses.
+
+(* 'skip' returns the envelope unchanged, without consulting the KMS (the entropy state is untouched, no key is looked up) *)
+Theorem skip_identity keystore ecdsa eddsa eddsa_ph ent infile t kvs w old a0 kn kid alg ctx :
+  load_envelope infile = Ok (CTag t (CMap kvs)) -> signed_input kvs w old a0 ->
+  sign_envelope keystore ecdsa eddsa eddsa_ph ent (CTag t (CMap kvs)) kn kid alg ctx act_skip = Ok (CTag t (CMap kvs), ent)
+  /\ cli_sign_single keystore ecdsa eddsa eddsa_ph ent infile kn kid alg ctx act_skip = Ok (ser (CTag t (CMap kvs)), ent).
+Proof. exact (c09_skip_identity keystore ecdsa eddsa eddsa_ph ent infile t kvs w old a0 kn kid alg ctx). Qed.
+Print Assumptions skip_identity.
+Theorem skip_output_file_is_input_file keystore ecdsa eddsa eddsa_ph ent c t kvs w old a0 kn kid alg ctx :
+  wf c -> pynormal c -> c = CTag t (CMap kvs) -> signed_input kvs w old a0 ->
+  cli_sign_single keystore ecdsa eddsa eddsa_ph ent (encode c) kn kid alg ctx act_skip = Ok (encode c, ent).
+Proof. exact (c09_skip_file keystore ecdsa eddsa eddsa_ph ent c t kvs w old a0 kn kid alg ctx). Qed.
+Print Assumptions skip_output_file_is_input_file.
+
+(* 'remove-old': the first old signature block a0 is dropped, every other wrapper element keeps its place (the digest first), the
+   new block comes last, nothing else in the envelope changes, and the new signature verifies.  For a singly signed input
+   (first_tagged 18 post = Ok None as well) the only signature of the output is the new one: remove_old_single below *)
+Theorem remove_old keystore ecdsa eddsa eddsa_ph (pub : bytes -> bytes) ecdsa_verify eddsa_verify eddsa_ph_verify
+    ent t kvs w old a0 kn kid alg ctx id env' ent' :
+  (forall k h m n, ecdsa_verify (pub k) h m (ecdsa k h m n) = true) ->
+  (forall k m, eddsa_verify (pub k) m (eddsa k m) = true) ->
+  (forall k m, eddsa_ph_verify (pub k) m (eddsa_ph k m) = true) ->
+  signed_input kvs w old a0 -> bstr_list old -> blen old < 2 ^ 64 -> spec_cose_alg alg = Some id -> 0 <= kid < 2 ^ 64 ->
+  sign_envelope keystore ecdsa eddsa eddsa_ph ent (CTag t (CMap kvs)) kn kid alg ctx act_remove_old = Ok (env', ent') ->
+  exists pre post x d0 rest dg sig kind key,
+    old = pre ++ a0 :: post /\ first_tagged 18 pre = Ok None /\ py_loads a0 = Ok (CTag 18 x)
+    /\ pre ++ post = CBytes d0 :: rest /\ py_loads (CBytes d0) = Ok dg /\ keystore kn = Some (kind, key)
+    /\ same_but_wrapper (CTag t (CMap kvs)) env' w
+         (encode (CArray ((pre ++ post) ++ [CBytes (encode (cose_sign1 (encode (spec_protected id kid)) sig))])))
+    /\ cose_verify ecdsa_verify eddsa_verify eddsa_ph_verify kind (pub key) alg
+         (encode (sig_structure (encode (spec_protected id kid)) (ser dg))) sig = true.
+Proof. exact (c09_remove_old keystore ecdsa eddsa eddsa_ph pub ecdsa_verify eddsa_verify eddsa_ph_verify ent t kvs w old a0 kn kid alg ctx id env' ent'). Qed.
+Print Assumptions remove_old.
+(* no old signature is left when the input had exactly one *)
+Theorem remove_old_single pre post : first_tagged 18 pre = Ok None -> first_tagged 18 post = Ok None -> first_tagged 18 (pre ++ post) = Ok None.
+Proof. exact (fun H1 H2 => eq_trans (first_tagged_app_none 18 pre post H1) H2). Qed.
+Print Assumptions remove_old_single.
+
+(* ---------------------------------------------------------------- key type *)
+(* the check of the KMS is the specification's relation between key classes and the five algorithms, for every EC key size *)
+Theorem key_type_check_is_spec kind alg :
+  In alg five_algs -> match kind with KEc ks => 0 <= ks | _ => True end ->
+  verify_signing_key_type kind alg = match kind with KOther => Raise ValueError | _ => Ok (spec_key_matches kind alg) end.
+Proof. exact (key_type_spec kind alg). Qed.
+Print Assumptions key_type_check_is_spec.
+(* a key whose class does not match the requested algorithm is refused by the KMS (ValueError) whatever the message, and the
+   command raises — no output *)
+Theorem key_type_mismatch_refused keystore ecdsa eddsa eddsa_ph ent infile t kvs w old d0 rest dg kn kid alg ctx action id kind key :
+  load_envelope infile = Ok (CTag t (CMap kvs)) ->
+  dict_get kvs (CUint 2) = Some (CBytes w) -> py_loads (CBytes w) = Ok (CArray old) -> first_tagged 18 old = Ok None ->
+  old = d0 :: rest -> py_loads d0 = Ok dg -> spec_cose_alg alg = Some id ->
+  keystore kn = Some (kind, key) -> match kind with KEc ks => 0 <= ks | _ => True end -> spec_key_matches kind alg = false ->
+  (forall msg, kms_sign keystore ecdsa eddsa eddsa_ph ent msg kn alg ctx = Raise ValueError)
+  /\ cli_sign_single keystore ecdsa eddsa eddsa_ph ent infile kn kid alg ctx action = Raise ValueError.
+Proof. exact (c09_key_mismatch keystore ecdsa eddsa eddsa_ph ent infile t kvs w old d0 rest dg kn kid alg ctx action id kind key). Qed.
+Print Assumptions key_type_mismatch_refused.
+
+(* ---------------------------------------------------------------- recursive signing *)
+(* For every configuration tree, every envelope and EVERY sign script `sc`: if the command succeeds, the calls of sign_envelope it made
+   are, in order, exactly spec_calls: for each node of the configuration that is not marked omit-signing one call — dependencies
+   before their parent — with the node's OWN key name, key id and already-signed action, and with sign script, KMS script, algorithm
+   and context of the nearest ancestor-or-self that sets them (spec_call, via inherit / inherit_opt / spec_script) *)
+Theorem recursive_signs_named sc envvar ent infile c nm out ent' tr :
+  cli_sign_recursive sc envvar ent infile c nm = Ok (out, ent', tr) -> map fst tr = spec_calls envvar [] c nm.
+Proof. exact (recursive_calls sc envvar ent infile c nm out ent' tr). Qed.
+Print Assumptions recursive_signs_named.
+(* ... where "nearest ancestor-or-self" is what inherit computes: the last node of the path that sets the attribute, else the default *)
+Theorem inherited_from_nearest_ancestor {A} (pre post : list (option A)) v d :
+  Forall (fun o => o = None) post -> inherit (pre ++ Some v :: post) d = v /\ inherit_opt (pre ++ Some v :: post) = Some v.
+Proof. exact (fun H => conj (inherit_nearest pre post v d H) (inherit_opt_nearest pre post v H)). Qed.
+Print Assumptions inherited_from_nearest_ancestor.
+Theorem inherited_default {A} (path : list (option A)) d : Forall (fun o => o = None) path -> inherit path d = d.
+Proof. exact (inherit_default path d). Qed.
+Theorem script_from_nearest_ancestor envvar (pre post : list (option bytes)) v var suf :
+  Forall (fun o => o = None) post -> spec_script envvar (pre ++ Some v :: post) var suf = Some v.
+Proof. exact (spec_script_nearest envvar pre post v var suf). Qed.
+Print Assumptions script_from_nearest_ancestor.
+
+(* With the NCS sign script, for every configuration whose dependency names are pairwise different (keys of a JSON object): at every
+   level of the tree the signed envelope has the same tag and the same keys in the same order as the input envelope of that level, and
+   every entry other than the authentication wrapper and the dependencies named in the configuration is identical (unnamed_untouched);
+   each named dependency is re-embedded, serialised, under its own name and the same holds inside it (every_level);
+   in particular the manifest (key 3) is identical at every level (manifests_identical), so digests recorded by parents stay valid *)
+Theorem unnamed_untouched_manifests_identical keystore ecdsa eddsa eddsa_ph envvar ent infile c nm out ent' tr :
+  cfg_ok c -> cli_sign_recursive (ncs_call keystore ecdsa eddsa eddsa_ph) envvar ent infile c nm = Ok (out, ent', tr) ->
+  exists env n env', load_envelope infile = Ok env /\ rs_init envvar c env nm None None default_alg None = Ok n /\ rn_env n = env
+                     /\ out = ser env' /\ every_level frame_level n env' /\ every_level manifest_level n env'.
+Proof. exact (c09_recursive_frame keystore ecdsa eddsa eddsa_ph envvar ent infile c nm out ent' tr). Qed.
+Print Assumptions unnamed_untouched_manifests_identical.
+(* the same for any sign script that changes nothing but the entry under key 2 *)
+Theorem unnamed_untouched sc n :
+  (forall f env ent env' ent', sc f env ent = Ok (env', ent') -> only_wrapper env env') -> rnode_ok n ->
+  forall ent env' ent' tr, rs_sign sc n ent = Ok (env', ent', tr) -> every_level frame_level n env'.
+Proof. exact (fun H => rs_sign_frame sc H n). Qed.
+Print Assumptions unnamed_untouched.
+Theorem ncs_sign_script_touches_only_the_wrapper keystore ecdsa eddsa eddsa_ph f env ent env' ent' :
+  ncs_call keystore ecdsa eddsa eddsa_ph f env ent = Ok (env', ent') -> only_wrapper env env'.
+Proof. exact (ncs_call_frame keystore ecdsa eddsa eddsa_ph f env ent env' ent'). Qed.
+Print Assumptions ncs_sign_script_touches_only_the_wrapper.
+
+(* omit-signing: a node so marked makes no call (spec_calls lists none for it, by recursive_signs_named), and its key-name / key-id
+   are never looked at: for every node — whatever envelope, name and inherited attributes it is constructed with — and every sign
+   script, construction followed by signing gives the same result with any key attributes as with none *)
+Theorem omit_needs_no_key sc envvar c kn kid env name ss ks alg ctx ent :
+  cfg_omit c = true ->
+  match rs_init envvar (with_keys c kn kid) env name ss ks alg ctx with Ok n => rs_sign sc n ent | Raise x => Raise x end =
+  match rs_init envvar (with_keys c None None) env name ss ks alg ctx with Ok n => rs_sign sc n ent | Raise x => Raise x end.
+Proof. exact (node_omit_no_key sc envvar c kn kid env name ss ks alg ctx ent). Qed.
+Print Assumptions omit_needs_no_key.
+Theorem omit_needs_no_key_command sc envvar ent infile c nm kn kid :
+  cfg_omit c = true ->
+  cli_sign_recursive sc envvar ent infile (with_keys c kn kid) nm = cli_sign_recursive sc envvar ent infile (with_keys c None None) nm.
+Proof. exact (c09_omit_cli sc envvar ent infile c nm kn kid). Qed.
+Print Assumptions omit_needs_no_key_command.
+
+(* a dependency named anywhere in the configuration that is absent from its parent envelope, is not a byte string, does not decode, or
+   does not decode to a tagged item: the command raises, with an exception that does not depend on the sign script or the entropy —
+   the constructor phase fails before anything is signed and before the only write *)
+Theorem bad_dependency_fails_first envvar infile env c nm :
+  load_envelope infile = Ok env -> bad_dependency c env ->
+  exists e, forall sc ent, cli_sign_recursive sc envvar ent infile c nm = Raise e.
+Proof. exact (c09_bad_dependency envvar infile env c nm). Qed.
+Print Assumptions bad_dependency_fails_first.
+
+(* ---------------------------------------------------------------- non-vacuity *)
+Definition toy_sign ent env kn kid alg act := sign_envelope toy_keystore toy_ecdsa toy_ed toy_ed ent env kn kid alg None act.
+Definition toy_signed : cbor := match toy_sign 0 toy_env (s2b "ec") 7 a_es256 act_error with Ok (e, _) => e | Raise _ => cnull end.
+(* a singly signed envelope exists; error refuses it, skip returns it, remove-old leaves one block *)
+Example signed_input_nonvacuous :
+  exists kvs w old a0, toy_signed = CTag 107 (CMap kvs) /\ signed_input kvs w old a0 /\ bstr_list old
+    /\ toy_sign 1 toy_signed (s2b "ed") 9 a_eddsa act_error = Raise SignerError
+    /\ toy_sign 1 toy_signed (s2b "ed") 9 a_eddsa act_skip = Ok (toy_signed, 1%nat)
+    /\ exists e', toy_sign 1 toy_signed (s2b "ed") 9 a_eddsa act_remove_old = Ok (e', 1%nat) /\ blen (ser e') < blen (ser toy_signed).
+Proof.
+  eexists _, _, _, _. split; [vm_compute; reflexivity|]. split; [repeat split; vm_compute; reflexivity|].
+  split; [vm_compute; repeat constructor|]. split; [vm_compute; reflexivity|]. split; [vm_compute; reflexivity|].
+  eexists. split; [vm_compute; reflexivity|]. vm_compute. reflexivity.
+Qed.
+(* a two-level configuration: both levels are signed, the dependency first, each with its own key; the child inherits the scripts *)
+Example recursive_nonvacuous :
+  exists out tr, cfg_ok toy_cfg
+    /\ cli_sign_recursive (ncs_call toy_keystore toy_ecdsa toy_ed toy_ed) toy_no_env 0 (ser toy_env) toy_cfg (s2b "in") = Ok (out, 1%nat, tr)
+    /\ map (fun f => (r_name f, r_key_name f, r_key_id f, r_alg f, r_sign_script f)) (map fst tr)
+       = [(s2b "#dep", Some (s2b "ed"), Some 256, a_eddsa, s2b "sign.py"); (s2b "in", Some (s2b "ec"), Some 7, a_es256, s2b "sign.py")].
+Proof.
+  eexists _, _. split.
+  - constructor; [vm_compute; repeat constructor; intuition discriminate|]. intros dn dc [[= <- <-]|[]]. constructor; [constructor|intros ? ? []].
+  - split; vm_compute; reflexivity.
+Qed.
+Example mismatch_nonvacuous : toy_sign 0 toy_env (s2b "ed") 7 a_es256 act_error = Raise ValueError.
+Proof. vm_compute. reflexivity. Qed.
+Example bad_dependency_nonvacuous :
+  bad_dependency (Cfg (Some true) None None (Some (s2b "s")) (Some (s2b "k")) None None None false
+                      (Some [(s2b "#nope", Cfg (Some true) None None None None None None None false None)])) toy_env.
+Proof. eapply BadHere; [left; reflexivity|vm_compute; reflexivity]. Qed.
